@@ -133,7 +133,13 @@ func (p *Peer) processSendQueue() {
 		var chunk message.Frame
 		chunk, frame = frame.Split(maxByteFrameSize)
 		if len(chunk) == 0 {
-			break
+			if len(frame) == 0 {
+				break
+			}
+
+			// A single message at or above the limit can't be split any further, send it
+			// on its own rather than abandoning the rest of the queue.
+			chunk, frame = frame[:1], frame[1:]
 		}
 
 		buffer := chunk.Encode()
